@@ -25,7 +25,8 @@ TIMEOUT = {"quick": 600, "thorough": 3000}
 
 
 def thresholds(tier):
-  return {"events.quantized_po2": 60, "events.quantized_relu_po2": 100,
+  return {"live.pytest_runs": 1, "live.elements": 400000,
+          "events.quantized_po2": 60, "events.quantized_relu_po2": 100,
           "idempotence_checked": 60, "monotone_checked": 150, "distinct_nontrivial": 30000}
 
 
@@ -49,7 +50,21 @@ def cases(tier, seed, keras3=False):
     out = out[::5]
   for i, c in enumerate(out):
     c["idx"], c["seed"] = i, seed
-  return out
+  from vf import live
+  return live.cases(tier, "po2", keras3) + out
+
+
+def platform_log2_short(v):
+  """Per element of the float32 array v (same shape and element order as the tensor the quantizer sees):
+  for exact powers of two 2^e, does the platform's float32 quotient log(v)/log(2) fall below e?  This is
+  the mechanism of F-C03-3.  Computed with TensorFlow's own float32 log (not with repository code) on a
+  tensor of the *same size*, because Eigen's vectorised and scalar log kernels differ in the last bit and
+  which one an element gets depends on its position in the tensor."""
+  import tensorflow as tf
+  v = np.asarray(v, dtype=np.float32)
+  safe = np.where(v > 0, v, np.float32(1.0))
+  l = (tf.math.log(tf.constant(safe)) / np.log(2.0)).numpy().astype(np.float64)
+  return (l < np.round(np.log2(safe.astype(np.float64)))) & (v > 0)
 
 
 def check(ctx, cfg, q, x, base, tag):
@@ -73,6 +88,12 @@ def check(ctx, cfg, q, x, base, tag):
     mag0 = np.abs(xf) if cls == "quantized_po2" else np.where(xf < 0, 0.0, xf)
   else:
     mag0 = np.where(xf < 0, -xf * slope, xf)
+  short_full = None
+  if mode == "floor":
+    m32 = mag0.astype(np.float32)
+    if mv is not None:
+      m32 = np.minimum(m32, np.float32(mv))
+    short_full = platform_log2_short(m32.reshape(x.shape)).ravel()
   # (1) inputs below the epsilon floor map to 2^min_exp; when the input is more
   # than 2^22 times larger than that code, x + (-x + xq) absorbs the code in
   # float32 and the output is 0 / not a power of two.
@@ -88,6 +109,8 @@ def check(ctx, cfg, q, x, base, tag):
                     {"x": float(xf[zone][i]), "y": float(yf[zone][i]), "min_exp": min_exp, "tag": tag})
     valid &= ~zone
     xf, yf = xf[~zone], yf[~zone]
+    if short_full is not None:
+      short_full = short_full[~zone]
   # (2) 2^min_exp below float32's normal range underflows to 0
   if min_exp < -126 and (yf == 0).any():
     ctx.violation(dict(base, kind="smallest_code_underflows_to_zero"),
@@ -96,6 +119,8 @@ def check(ctx, cfg, q, x, base, tag):
     keep = yf != 0
     valid[np.flatnonzero(valid)[~keep]] = False
     xf, yf = xf[keep], yf[keep]
+    if short_full is not None:
+      short_full = short_full[keep]
   if not np.all(np.isfinite(yf)) or (yf == 0).any():
     i = int(np.argmax(~np.isfinite(yf) | (yf == 0)))
     ctx.violation(dict(base, kind="zero_or_non_finite"), "q(%r) = %r" % (xf[i], yf[i]), {"x": xf[i], "tag": tag})
@@ -146,6 +171,26 @@ def check(ctx, cfg, q, x, base, tag):
   b = np.where(below, min_exp, b)
   a = np.where(near_eps, min_exp, a)
   wrong = ((e < a) | (e > b)) & ~(tiny & (cls == "quantized_po2") & False)
+  if mode == "floor":
+    # an input that *is* an admissible power of two has no tie: floor must return it.  The float band
+    # above would accept one exponent less.  The unchanged tree does lose an exponent where the platform's
+    # float32 log2 falls short of the integer (F-C03-3); anywhere else it is a different violation.
+    mi = np.maximum(mag_in, 1e-300)
+    if mv is not None:
+      mi = np.minimum(mi, float(mv))
+    mm, me = np.frexp(mi)
+    exact = (mm == 0.5) & ~below & ~near_eps & (me - 1 >= min_exp) & (me - 1 <= max_exp)
+    dropped = exact & (e == (me - 1) - 1)
+    if dropped.any():
+      short = short_full
+      for flag in (True, False):
+        sel = dropped & (short == flag)
+        if sel.any():
+          i = int(np.argmax(sel))
+          ctx.violation(dict(base, kind="floor_mode_exact_power_of_two_drops_one_exponent", platform_log2_short=flag),
+                        "q(%r) = %r: floor of an exact power of two lost one exponent (%d inputs)" % (xf[i], yf[i], int(sel.sum())),
+                        {"x": xf[i], "y": yf[i], "n_bad": int(sel.sum()), "tag": tag})
+    ctx.count("floor_exact_powers_checked", int(exact.sum()))
   if wrong.any():
     i = int(np.argmax(wrong))
     ctx.violation(dict(base, kind="wrong_exponent", mode=mode),
@@ -155,6 +200,9 @@ def check(ctx, cfg, q, x, base, tag):
 
 
 def run_case(cfg, ctx):
+  if isinstance(cfg, dict) and cfg.get("part") == "live":
+    from vf import live
+    return live.run(cfg, ctx)
   from vf import qenv
   cls, kw = cfg["cls"], cfg["kw"]
   slope = float(kw.get("negative_slope", 0) or 0)
@@ -241,10 +289,14 @@ def run_case(cfg, ctx):
       ne &= ~below
       drop = ne & (np.abs(y2.astype(np.float64)) * 2 == ya) & (base["mode"] == "floor")
       if drop.any():
-        i = int(np.argmax(drop))
-        ctx.violation(dict(base, kind="floor_mode_exact_power_of_two_drops_one_exponent"),
-                      "x=%r q=%r qq=%r" % (float(x[i]), float(y[i]), float(y2[i])),
-                      {"x": float(x[i]), "q": float(y[i]), "qq": float(y2[i]), "n_bad": int(drop.sum())})
+        short = platform_log2_short(np.abs(y)).ravel()
+        for flag in (True, False):
+          sel = drop & (short == flag)
+          if sel.any():
+            i = int(np.argmax(sel))
+            ctx.violation(dict(base, kind="floor_mode_exact_power_of_two_drops_one_exponent", platform_log2_short=flag),
+                          "x=%r q=%r qq=%r" % (float(x[i]), float(y[i]), float(y2[i])),
+                          {"x": float(x[i]), "q": float(y[i]), "qq": float(y2[i]), "n_bad": int(sel.sum())})
       ne &= ~drop
       if ne.any():
         i = int(np.argmax(ne))
